@@ -11,7 +11,7 @@ ENGINE = ["src/str/vsnprintf_s.c", "src/str/snprintf_s.c", "src/str/sprintf_s.c"
 STREAM = ["src/io/printf_s.c", "src/io/fprintf_s.c", "src/io/vfprintf_s.c", "src/io/vprintf_s.c"]
 MODELS = ("libc_models.c", "printf_models.c", "conv_models.c")
 
-DIR_RE = re.compile(r"%([-+ #0]*)(\*|\d+)?(?:(\.)(\*|\d+)?)?(hh|h|ll|l|j|z|t|L)?([diuxXocsn%])")
+DIR_RE = re.compile(r"%([-+ #0]*)(\*|\d+)?(?:(\.)(\*|\d+)?)?(hh|h|ll|l|j|z|t|L)?([diuxXocsnfF%])")
 SL = 4  # max characters of a %s argument
 
 INT_T = {None: ("int", "unsigned int"), "hh": ("int", "unsigned int"), "h": ("int", "unsigned int"), "l": ("long", "unsigned long"),
@@ -111,6 +111,18 @@ def gen(fmt, entry, stream=False):
             sent.append("static char *S%d;" % k)
             ref.append("if (in.snull%d) viol = 1; else ref_str(out, n, %s, %s, %s, in.s%d, in.sobj%d);" % (k, flx, wexpr, pexpr, k, k))
             intact.append("(!S%d || vh_same(S%d, in.s%d, in.sobj%d))" % (k, k, k, k))
+        elif conv in "fF" and length is None:
+            # double argument given by its bit pattern; ARGSEL 0: |v| < FRANGE (all doubles incl. denormals and -0.0), 1: +inf, 2: -inf, 3: NaN, 4: FRANGE <= |v| < 1e9
+            inputs.append("S(unsigned long long, a%d)" % k)
+            sent.append("static double D%d;" % k)
+            setup.append("{ union { unsigned long long u; double d; } cv; cv.u = in.a%d; D%d = cv.d; }\n#if ARGSEL == 0\n ASSUME(D%d > -FRANGE && D%d < FRANGE);\n"
+                         "#elif ARGSEL == 1\n D%d = 1.0 / 0.0;\n#elif ARGSEL == 2\n D%d = -1.0 / 0.0;\n#elif ARGSEL == 3\n D%d = 0.0 / 0.0; if (D%d < 0 || 1) { union { unsigned long long u; double d; } q; q.u = 0x7ff8000000000000ULL; D%d = q.d; }\n"
+                         "#else\n ASSUME((D%d >= FRANGE && D%d < 999999999.0) || (D%d <= -FRANGE && D%d > -999999999.0));\n#endif\n" % ((k,) * 13))
+            args.append("D%d" % k)
+            sent.append("#define FLOAT_SKEL 1\nstatic int float_ok(const char *t, unsigned n) { return ref_float_ok(t, n, %s, %s, %s, D%d, %d); }\n"
+                        "static unsigned float_maxlen(void) { return ref_float_maxlen(%s, %s, %s, D%d); }" % (flx, wexpr, pexpr, k, 1 if conv == "F" else 0, flx, wexpr, pexpr, k))
+            if fmt != m.group(0):
+                raise ValueError("float skeletons are single directives: %r" % fmt)
         elif conv == "n":
             has_n = True
             ty = {None: "int", "hh": "signed char", "h": "short", "l": "long", "ll": "long long", "j": "intmax_t", "z": "ssize_t",
@@ -148,6 +160,9 @@ def gen(fmt, entry, stream=False):
 #endif
 #ifndef ARGSEL
 #define ARGSEL 0
+#endif
+#ifndef FRANGE
+#define FRANGE 1000.0
 #endif
 #define VH_MAX(t) ((t)((((unsigned long long)1 << (sizeof(t) * 8 - 1)) - 1)))
 #define VH_MIN(t) ((t)(-(long long)VH_MAX(t) - 1))
@@ -200,6 +215,8 @@ CORE = ["%d", "%i", "%u", "%x", "%X", "%o", "%c", "%s", "a%%b", "%5d", "%-5d", "
 MORE = ["%.*s", "%*s", "%%%d", "%d%%", "%+.3d", "%-#6o", "%#X", "%lli", "%hi", "%hhi", "%hx", "%hhx", "%lo", "%llo", "%zx", "%jx", "%ju", "%tx",
         "%0*d", "%-*.*d", "%+*d", "%.1s", "%.0s", "%10.4s", "%-6.1s", "%s%s", "%d %s %c", "%#.0o", "%#.0x", "%+.0d", "%ho",
         "x%5cy", "%- 5d", "%+ d", "%00d", "%--5d", "%.10d", "%20d", "%-20d|", "%020d", "%llu", "%lx", "%lX", "%#lx", "%#llo"]
+FLOATS_Q = ["%.1f", "%.0f", "%.2f", "%6.1f", "%+.1f"]
+FLOATS_T = FLOATS_Q + ["%f", "%.3f", "%-6.1f", "%06.1f", "% .1f", "%F", "%#.0f", "%.1F", "%8.2f", "%-+7.2f"]
 N_FMTS = ["%n", "a%n", "%%%n", "%d%n", "%ln", "%hhn", "%hn", "%lln", "%jn", "%zn", "%tn", "%5n", "%-n", "%.3n", "%*n", "%%n%n",
           "%s%n", "ab%%%%%n", "%0n", "%#n", "% n", "%+n", "%.*n", "%c%n"]
 ENTRIES = [("snprintf_s", "_snprintf_s_chk", False), ("sprintf_s", "_sprintf_s_chk", False), ("vsnprintf_s", "vwrap_vsnprintf", False),
@@ -227,6 +244,8 @@ def jobs(prop, tier, only_fn=None):
         plan = [(f, ENTRIES[i % 2 if quick else i % 4]) for i, f in enumerate(fmts)]
         if not quick:
             plan += [(f, e) for f in CORE[:16] for e in ENTRIES[1:]]
+        fl = FLOATS_Q if quick else FLOATS_T
+        plan += [(f, ENTRIES[i % 2 if quick else i % 4]) for i, f in enumerate(fl)] + [(f, STREAM_ENTRIES[1]) for f in fl[:1 if quick else 4]]
         plan += [(f, e) for f in (CORE[:8] + ["ab%lc|"] if quick else CORE[:24] + ["%lc", "ab%lc|"]) for e in (STREAM_ENTRIES[:2] if quick else STREAM_ENTRIES)]
     elif prop in ("C01", "C02"):
         plan = [(f, ENTRIES[0]) for f in (["%d", "%s", "%.2s", "%5s", "%c", "%x", "%*d", "%s|%d", "ab%lc|"] if quick else fmts)]
@@ -254,6 +273,11 @@ def jobs(prop, tier, only_fn=None):
         files = ENGINE + (STREAM if stream else [])
         decimal = bool(re.search(r"%[-+ #0]*(\*|\d+)?(\.(\*|\d+)?)?(hh|h|ll|l|j|z|t)?[diu]", fmt))
         sels = [0, 1, 2, 3] if ((decimal or "%ls" in fmt) and prop == "C11") else [0]
+        isfloat = fmt in FLOATS_T
+        if isfloat:
+            sels = [0] + ([1, 2, 3] if fmt in ("%.1f", "%f", "%F", "%6.1f") else []) + ([] if quick else [4])
+        if os.environ.get("VERIF_FMT") and fmt != os.environ["VERIF_FMT"]:
+            continue
         for variant in variants:
           for sel in sels:
             for dm in (dmaxes if sel == 0 else dmaxes[:1]):
@@ -266,6 +290,6 @@ def jobs(prop, tier, only_fn=None):
                 out.append(Job("%s.%s.%s.%s.d%d.a%d" % (ename, prop, h, variant, dm, sel), prop, path, files, defines=defs, variant=variant,
                                models=MODELS, native_models=("printf_models.c",) if stream else (), unwind_default=36, unwind_rules=[(r"^safec_ntoa_long(_long)?\.0$", 6 if (decimal and sel == 0) else 34),(r"^(ref_|vh_same)", 72), (r"^safec_strnlen_s", 12), (r"^(memset|memcpy|strstr)\.", 36), (r"^safec_atoi", 4)],
                                memchecks=mem, fn=ename, timeout=240 if quick else 900,
-                               bounds={"format": fmt, "entry": ename, "dmax": dm, "arguments": ("decimal: |v| < 1000 symbolic" if sel == 0 else "decimal: extreme value #%d of the type" % sel) if decimal else "symbolic (full width)",
+                               bounds={"format": fmt, "entry": ename, "dmax": dm, "arguments": ("double: " + ("every value with |v| < 1000 (incl. denormals, -0.0)", "+inf", "-inf", "NaN", "1000 <= |v| < 999999999")[sel]) if isfloat else ("decimal: |v| < 1000 symbolic" if sel == 0 else "decimal: extreme value #%d of the type" % sel) if decimal else "symbolic (full width)",
                                        "%s argument": "<= %d chars, exact object, may be NULL" % SL, "* width/precision": "-12..12 / -2..12"}))
     return out
